@@ -63,12 +63,15 @@ OpOf(kind) == CASE kind = "AND" -> "&&" [] kind = "OR" -> "||" [] kind = "CONTAI
 ComparisonOps == {"==", ">=", ">", "<=", "<", "!=", "<>", "=~"}
 LiteralOps == ComparisonOps \cup {"<>", "in", "contains"}
 
-\* ---- the function registry (the five typed standard functions) ------------------------------
+\* ---- the function registry (the five typed standard functions and the four names of the two non-standard ones) ---
 Sig(f) == CASE f = <<108,101,110,103,116,104>> -> [params |-> <<"value">>, ret |-> "value", known |-> TRUE]          \* length
             [] f = <<99,111,117,110,116>> -> [params |-> <<"nodes">>, ret |-> "value", known |-> TRUE]               \* count
             [] f = <<109,97,116,99,104>> -> [params |-> <<"value", "value">>, ret |-> "logical", known |-> TRUE]      \* match
             [] f = <<115,101,97,114,99,104>> -> [params |-> <<"value", "value">>, ret |-> "logical", known |-> TRUE]  \* search
             [] f = <<118,97,108,117,101>> -> [params |-> <<"nodes">>, ret |-> "value", known |-> TRUE]               \* value
+            \* the non-standard functions every environment registers: isinstance / is (nodes, value) -> logical, typeof / type (nodes) -> value
+            [] f \in {<<105,115,105,110,115,116,97,110,99,101>>, <<105,115>>} -> [params |-> <<"nodes", "value">>, ret |-> "logical", known |-> TRUE]
+            [] f \in {<<116,121,112,101,111,102>>, <<116,121,112,101>>} -> [params |-> <<"nodes">>, ret |-> "value", known |-> TRUE]
             [] OTHER -> [params |-> <<>>, ret |-> "none", known |-> FALSE]
 
 \* ---- node predicates used by the checks made while parsing ---------------------------------
